@@ -87,4 +87,33 @@ theorem pnorm_reflect_gap (ex tr : ℝ → ℝ) (htr : ∀ z, tr (-z) = -tr z) (
   rw [pNorm_real, abs_neg]
   simp only [c1, c2, r, and_self, if_true, if_false, far_real, c4, farTail_neg ex tr htr]
 
+/-- **Range.**  `0 ≤ pNorm x ≤ 1` for every `x`, in exact arithmetic, for every `exp` with values in
+`[0,1]` on the non-positive axis and every odd `trunc` with `0 ≤ trunc z ≤ z` on `z ≥ 0`
+(`ExpTrunc`; `Real.exp` and the mathematical `trunc` qualify: `expTrunc_real`). -/
+theorem pnorm_range (ex tr : ℝ → ℝ) (H : ExpTrunc ex tr) (x : ℝ) :
+    0 ≤ pNorm ex tr x ∧ pNorm ex tr x ≤ 1 := by
+  have h0 := cut1_pos
+  have h5 := five_le_cut2
+  rw [pNorm_real]
+  by_cases c1 : |x| ≤ cut1
+  · simp only [c1, if_true, central_real]
+    have := abs_le.mp (centralTemp_bd c1)
+    constructor <;> linarith [this.1, this.2]
+  · simp only [c1, if_false]
+    by_cases c2 : |x| ≤ cut2
+    · simp only [c2, if_true, middle_real]
+      have := middleTail_bd H (abs_nonneg x)
+      split <;> constructor <;> linarith [this.1, this.2]
+    · simp only [c2, if_false]
+      by_cases c3 : -lowCut < x ∧ x < upCut
+      · simp only [c3, and_self, if_true, far_real]
+        have := farTail_bd H (x := x) (by linarith [not_le.mp c2])
+        split <;> constructor <;> linarith [this.1, this.2]
+      · simp only [c3, if_false]
+        split <;> norm_num
+
+/-- the hypotheses of `pnorm_range` are satisfiable: the real exponential and truncation -/
+example (x : ℝ) : 0 ≤ pNorm Real.exp truncR x ∧ pNorm Real.exp truncR x ≤ 1 :=
+  pnorm_range _ _ expTrunc_real x
+
 end Bpp.C08
